@@ -718,6 +718,7 @@ fn build_xlsx(c: &Case) -> Built {
             book.defined_names.push((n.name.clone(), t.clone()));
         }
     }
+    book.split_defined_names = !c.plain && rng.chance(1, 3);
     let mut l = if c.plain { xlsxw::Layout::plain() } else { xlsxw::Layout::random(&mut rng) };
     l.seed = rng.next();
     l.prefix = c.prefix.clone();
